@@ -30,9 +30,8 @@
            (engine 4, ListObjects with enable-list-objects-optimizations: its candidate checks used to be cached
             with invariant key 0 -- C04/C08 lo_cache_key_without_ctx, fixed by 927fd35; a difference there is
             a PROP like any other)
-           cancelled_reducer_result_cached   default engine, ONE cached run of the history only: wrong cache
-                                        entries, all of them sub-problems below a request root, and the answers
-                                        that follow from them (a cancelled sub-problem stored with an invented result);
+           (a wrong cache entry -- in one run or in all -- is a DIFF: the reducers that used to invent a result for
+            a cancelled sub-problem, C08 cancelled_reducer_result_cached, are fixed by 7d244e9)
            depth_error_masked_by_cache  default engine: uncached = resolution depth exceeded, cached
                                         = an answer (or error) the model gives without a depth limit;
            excl_sub_cycle / cond_err_swallowed   the C01 findings (V1 trigger flags), as in c01_oracle.ml. *)
@@ -165,7 +164,7 @@ let f _id vs =
       else if in_model && tr.tr_swallow then known ("cond_err_swallowed " ^ txt)
       else prop txt in
     (* one compared answer *)
-    let compare_answer ?(flagless=false) ?(excused=false) eng si ii (it : item) a (us : int list) (cc : int) run =
+    let compare_answer ?(flagless=false) eng si ii (it : item) a (us : int list) (cc : int) run =
       (* BatchCheck outcomes carry no CycleDetected flag: `denied` stands for both *)
       let mem_cls x set = List.mem x set || (flagless && x = AFn && List.mem AFc set) in
       let p = (it.w, it.s) in
@@ -199,7 +198,6 @@ let f _id vs =
                && List.exists (fun x -> api_of_aout x = api cc) nl
                && (eng <> 0 || in_cached_model)
             then known ("depth_error_masked_by_cache " ^ txt)
-            else if excused then known ("cancelled_reducer_result_cached " ^ txt)
             else by_trigger trall (eng <> 0 || in_cached_model) txt
           end
         end;
@@ -213,9 +211,8 @@ let f _id vs =
             | None -> if u <> 7 then diff (Printf.sprintf "%s: uncached impl=%s (unexpected class)" wh (cls_s u))) us;
           (match cls_aout cc with
            | Some _ -> if not in_cached_model then
-               (if excused then known else diff)
-                 (Printf.sprintf "%s%s: cached impl=%s outside Check/QueryCache history{%s} all-valid{%s}; uncached model {%s}"
-                    (if excused then "cancelled_reducer_result_cached " else "")
+               diff
+                 (Printf.sprintf "%s: cached impl=%s outside Check/QueryCache history{%s} all-valid{%s}; uncached model {%s}"
                     wh (cls_s cc) (set_s setc) (set_s set2) (set_s set1))
            | None -> if cc <> 7 then diff (Printf.sprintf "%s: cached impl=%s (unexpected class)" wh (cls_s cc)));
           (* reference semantics *)
@@ -241,14 +238,6 @@ let f _id vs =
           | _ -> failwith "obs") (as_list rv) in
         let uruns = List.map dec_run (as_list uruns) and cruns = List.map dec_run (as_list cruns) in
         (* ---- cache read-backs (engine 0): every entry must be the path-independent value of its key ---- *)
-        let roots p =
-          List.concat_map (function
-            | SCheck it -> if (it.w, it.s) = p then [(it.o, it.rel)] else []
-            | SBatch its -> List.concat_map (fun (it : item) -> if (it.w, it.s) = p then [(it.o, it.rel)] else []) its
-            | SList it -> if (it.w, it.s) = p then atoms_of_list it else []) steps in
-        let below_a_root p a =
-          let (m, _, store, _, _) = penv p in
-          List.exists (fun root -> root <> a && List.mem a (reach m store gfuel root)) (roots p) in
         let wrong_entries = List.map (fun dv ->
           List.filter_map (fun e ->
             match as_list e with
@@ -259,30 +248,14 @@ let f _id vs =
               if as_bool cycle then prop (Printf.sprintf "cache entry %s carries CycleDetected" (where p a));
               (match clook (cstar p) a with
                | Some b -> if b <> allowed then
-                   Some (below_a_root p a, Printf.sprintf "cache entry %s = %b, path-independent value %b" (where p a) allowed b)
+                   Some ((), Printf.sprintf "cache entry %s = %b, path-independent value %b" (where p a) allowed b)
                  else None
                | None ->
-                 Some (below_a_root p a,
+                 Some ((),
                        Printf.sprintf "cache entry %s = %b but the sub-problem has no path-independent value (uncached model {%s})"
                          (where p a) allowed (set_s (fst (v1 p a)))))
             | _ -> failwith "dump entry") (as_list dv)) (as_list dumps) in
-        (* A sub-problem that a short circuit cancels can be stored with an invented result (finding
-           cancelled_reducer_result_cached: the union / intersection reducers return denied / allowed
-           without error when their context is cancelled in a narrow window).  It is a race: it shows in
-           one run and not in the others.  A run is excused when all its wrong entries are sub-problems
-           BELOW a request root of their partition (a top-level request is never cancelled), there are at
-           least three cached runs and every other cached run of the same history is clean. *)
-        let nruns = List.length wrong_entries in
-        let excused_run r =
-          eng = 0 && nruns >= 3 &&
-          (match List.nth_opt wrong_entries r with
-           | Some (_ :: _ as l) -> List.for_all fst l
-           | _ -> false) &&
-          List.for_all (fun x -> x) (List.mapi (fun r' l -> r' = r || l = []) wrong_entries) in
-        List.iteri (fun r l ->
-          List.iter (fun (_, txt) ->
-            if excused_run r then known ("cancelled_reducer_result_cached " ^ txt ^ Printf.sprintf " (run %d only)" r)
-            else diff txt) l) wrong_entries;
+        List.iter (fun l -> List.iter (fun (_, txt) -> diff txt) l) wrong_entries;
         List.iteri (fun run crun ->
           List.iteri (fun si st ->
             let (ccls, cobjs) = List.nth crun si in
@@ -290,11 +263,11 @@ let f _id vs =
             match st with
             | SCheck it ->
               let cc = List.hd ccls in
-              if cc <> 99 then compare_answer ~excused:(excused_run run) eng si 0 it (it.o, it.rel) (List.map (fun (c, _) -> List.hd c) us) cc run
+              if cc <> 99 then compare_answer eng si 0 it (it.o, it.rel) (List.map (fun (c, _) -> List.hd c) us) cc run
             | SBatch its ->
               List.iteri (fun ii it ->
                 let cc = List.nth ccls ii in
-                if cc <> 99 then compare_answer ~flagless:true ~excused:(excused_run run) eng si ii it (it.o, it.rel) (List.map (fun (c, _) -> List.nth c ii) us) cc run) its
+                if cc <> 99 then compare_answer ~flagless:true eng si ii it (it.o, it.rel) (List.map (fun (c, _) -> List.nth c ii) us) cc run) its
             | SList it ->
               let cc = List.hd ccls in
               if cc <> 99 then begin
@@ -318,7 +291,6 @@ let f _id vs =
                           (if inu then "listed without the cache, missing with it (run " ^ string_of_int run ^ ")"
                            else "listed only with the cache (run " ^ string_of_int run ^ ")") in
                       if eng = 1 || eng = 3 then (if hazard p si a then known ("v2_edge_cache_visited " ^ txt) else prop txt)
-                      else if excused_run run then known ("cancelled_reducer_result_cached " ^ txt)
                       else begin
                         let (_, tr1) = v1 p a in
                         let (_, tr2) = a2 p a in
